@@ -1123,4 +1123,38 @@ pub mod verif_hooks {
     pub fn residual(config: &config::Prc, errors: &[i32], warmup_length: usize) -> Residual {
         encode_residual(config, errors, warmup_length)
     }
+
+    /// Overwrites this thread's reusable scratch storage of this module (fixed-LPC error planes, QLPC
+    /// error buffer, mid/side frame buffer) with arbitrary contents of arbitrary sizes.
+    pub fn poison_scratch(seed: u64) {
+        let mut s = seed | 1;
+        let mut next = move || {
+            s ^= s << 13;
+            s ^= s >> 7;
+            s ^= s << 17;
+            s
+        };
+        let n = (next() % 6000) as usize;
+        QLPC_ERROR_BUFFER.with(|c| {
+            let mut v = c.borrow_mut();
+            v.clear();
+            for _ in 0..n {
+                v.push(next() as i32);
+            }
+        });
+        let size = 1 + (next() % 6000) as usize;
+        let garbage: Vec<i32> = (0..2 * size).map(|_| next() as i32).collect();
+        MSFRAMEBUF.with(|c| {
+            let mut fb = c.borrow_mut();
+            fb.resize(size);
+            let _ = crate::source::Fill::fill_interleaved(&mut *fb, &garbage);
+        });
+        FIXED_LPC_ERRORS.with(|c| {
+            for e in c.borrow_mut().iter_mut() {
+                let k = (next() % 6000) as usize;
+                let g: Vec<i32> = (0..k).map(|_| next() as i32).collect();
+                e.reset_from_slice(&g);
+            }
+        });
+    }
 }
